@@ -453,6 +453,14 @@ def run(ctx):
             if f.qualname in allowed or (f.cls is not None and f.cls.name == "LightWeightEdgeList"):
                 continue
             recv = _edge_list_receivers(f)
+            # a function that does not exist on the pinned tree and fills an edge list it has just constructed itself is a
+            # new PRODUCER (new functionality), not a writer of somebody's edge list: outside what C02 speaks about
+            from gcmstatic.normalize import load_vocabulary
+            vocab_ = load_vocabulary()
+            if vocab_ and f.qualname not in vocab_:
+                fsc = Scope(f.node)
+                recv = {r for r in recv if not (len(fsc.assigns.get(r, [])) == 1 and isinstance(fsc.assigns[r][0].value, ast.Call)
+                                                and txt(fsc.assigns[r][0].value.func) == "LightWeightEdgeList" and r not in f.params)}
             if not recv:
                 continue
             for n in astx.walk_fn(f.node):
